@@ -177,13 +177,30 @@ def run_case(desc):
         results.append(flodym_array_stack([x, x], fd.Dimension(letter="S", name="Stacked", items=["s0", "s1"])))
     elif op == "setitem_ndarray":
         t = fd.FlodymArray(dims=x.dims)
+        # the assigned ndarray may be a write-protected view or an instance of an ndarray subclass
+        given = nd
+        flavour = ["plain", "plain", "readonly", "subclass", "fortran", "plain"][desc["k"] % 6] if nd.ndim >= 1 else "plain"
+        if flavour == "readonly":
+            given = nd.view()
+            given.setflags(write=False)
+        elif flavour == "subclass":
+            from props.c05_assign import _NdSub
+
+            given = nd.view(_NdSub)
+        elif flavour == "fortran":
+            given = nd = np.asfortranarray(nd)
+        classes.append(f"ndarray:{flavour}")
         if desc["flag"]:
-            t[...] = nd
+            t[...] = given
         else:
-            t[{}] = nd
+            t[{}] = given
         tsnap = build.snapshot(t)
+        require(not np.shares_memory(t.values, nd), "assigned-ndarray-not-copied", f"target shares memory with the assigned ndarray ({flavour})")
+        require(bool(t.values.flags.writeable), "assigned-ndarray-not-copied", f"target values not writeable after assignment ({flavour})")
         nd[...] = SENT
         require(build.snapshot(t) == tsnap, "assigned-ndarray-not-copied", "target follows later changes of the ndarray")
+        t.values[...] = 1.0
+        require(np.all(nd == SENT), "assigned-ndarray-not-copied", "writing into the target changed the assigned ndarray")
         inputs.pop("nd")
         before.pop("nd")
     elif op == "setitem_array":
